@@ -479,7 +479,7 @@ static void exec_op(World *w, const json &op) {
 					hcalls = json::array();
 					bool ok = tv.TMCG_VerifyStackEquality(s, s2, cyc, w->pl[j].vt, in, vo);
 					res["res"] = ok; res["h"] = hcalls;
-					json vout = json::array(); { std::istringstream vs(vo.str()); std::string ln; while (std::getline(vs, ln)) { Mpz x; mpz_set_str(x, ln.c_str(), TMCG_MPZ_IO_BASE); vout.push_back(x.l()); } }
+					json vout = json::array(); { std::istringstream vs(vo.str()); std::string ln; bool first = true; while (std::getline(vs, ln)) { if (first) { vout.push_back(strtol(ln.c_str(), NULL, 10)); first = false; continue; }   /* the security parameter is written as a decimal number */ Mpz x; mpz_set_str(x, ln.c_str(), TMCG_MPZ_IO_BASE); vout.push_back(x.l()); } }
 					res["vout"] = vout;
 				} catch (std::exception &ex) { res["exc"] = ex.what(); }
 				std::string d = res.dump();
@@ -677,7 +677,8 @@ static json random_schedule(unsigned long seed, long x) {
 			if (r > 0 && rnd(2)) add({{"op", "Glue"}, {"i", who}, {"sigma", sid}, {"pi", sid + 1}, {"dst", 100 + sid}});
 			if (rnd(100) < F.proofs) {
 				// cut-and-choose proof of the shuffle just made: honest, with a wrong-sized answer, and a guessing prover
-				unsigned long kappa = rnd(5);
+				// (now and then a security parameter beyond a machine word: every one of the kappa challenge bits counts)
+				unsigned long kappa = (F.muts > 0 && n <= 3 && rnd(8) == 0) ? 60 + rnd(21) : rnd(5);
 				json bits = json::array(); for (unsigned long b = 0; b < kappa; b++) bits.push_back(rnd(2));
 				size_t v = rnd(np);
 				add({{"op", "CC"}, {"i", who}, {"j", v}, {"s", sid}, {"s2", sid + 1}, {"ss", sid + 1}, {"cyclic", cyc}, {"kappa", kappa}, {"bits", bits}});
